@@ -162,7 +162,7 @@ def _body(case, ctx):
         got = interp(aff)
         want = a[3] + sum(a[c] * pos[c] for c in range(dim))
         fmax = float(np.max(np.abs(aff64)))
-        if np.any(np.abs(got - want) > 16 * (eps + ceps) * fmax):
+        if np.any(np.abs(got - want) > 16 * (eps + ceps) * fmax + 64 * float(np.finfo(real_t).tiny)):
             mm = int(np.argmax(np.abs(got - want)))
             raise Violation(f"Peskin kernel does not reproduce an affine field at marker {mm} ({labels[mm]}): {got[mm]!r} vs {want[mm]!r}")
         with ctx.repo_call("simulator position_field"):
@@ -171,7 +171,7 @@ def _body(case, ctx):
             for c in range(dim):
                 got = interp(np.ascontiguousarray(pf[c]))
                 fmax = float(np.max(np.abs(pf[c])))
-                if np.any(np.abs(got - pos[c]) > 16 * (eps + ceps) * fmax):
+                if np.any(np.abs(got - pos[c]) > 16 * (eps + ceps) * fmax + 64 * float(np.finfo(real_t).tiny)):
                     mm = int(np.argmax(np.abs(got - pos[c])))
                     raise Violation(f"interpolating the simulator's position_field[{c}] returns {got[mm]!r} at marker {mm} located at {pos[c, mm]!r}")
             ctx.note(labels=["position_field_checked"])
